@@ -492,6 +492,16 @@ def frame_routes(tmp):
         (fr.save_fil if ext == 'fil' else fr.save_h5)(fn)
         out[f'loaded_{ext}'] = stg.Frame(waterfall=fn)
     out['slice'] = fr.get_slice(1, 5)
+    # frames whose axes are not the defaults computed from the parameters
+    a, b = (stg.Frame(fchans=8, tchans=3, df=2.0, dt=4.0, fch1=4096.0, seed=s_, t_start=1.5e9 + 100.0 * s_) for s_ in (1, 2))
+    for f_ in (a, b):
+        f_.add_noise(5.0)
+    out['consolidated'] = stg.Cadence([a, b]).consolidate()
+    sh = fr.copy()
+    sh.ts = sh.ts + 1234.5
+    out['shifted_ts'] = sh
+    dd = stg.dedrift(fr, 0.4)
+    out['dedrifted'] = dd
     return out
 
 
